@@ -11,4 +11,9 @@ CLAIMED = {
              "by vm_compute correspondence (limits 63/255, all octets, all escape spellings, pointer chains) each run",
         technique="machine-checked proof in Coq (structural induction on presentation strings and label lists) + model/implementation correspondence by vm_compute"),
 }
+CLAIMED["C01"] = dict(
+    text="Per-type field sequences regenerated from zmsg.go on every run and interpreted by a Coq model of the field "
+         "codecs; Coq theorems over all layouts/values (see Props/C01.v); model tied to /repo by the translator plus "
+         "vm_compute correspondence of pack octets, unpacked values and lengths for every registered type each run",
+    technique="machine-checked proof in Coq over translator-regenerated layout tables + model/implementation correspondence by vm_compute")
 NOT_YET = {}
